@@ -6,7 +6,7 @@ from . import core
 LEVEL_TEXT = (
     "Lean 4 theorems over the model of interop.rs (from_json per declared type) and of the argument handling of "
     "parse_resolve_request: hex text decodes back to the bytes it encodes, with or without one 0x prefix, for every "
-    "byte string; booleans are read from true/false, 0/1 and \"true\"/\"false\"; from_json and the request's argument "
+    "byte string; booleans are read from true/false, 0/1 and \"true\"/\"false\" and from nothing else (C16_bool_only); from_json and the request's argument "
     "handling return a value or an error for every JSON value and target type (no panic constructor is reachable); the "
     "argument map handed to the template holds only declared parameters, and exactly what the request supplies for them: for every name the map "
     "holds the coerced value of the last entry under that name in env ++ args when the name is declared and nothing otherwise - no supplied "
@@ -22,11 +22,12 @@ LEVEL_NOTE = (
     "results are fed to the judge from the observation); apply_args on the decoded template is C06's model."
 )
 PROP = "C16"
-TARGETS = ["Tx3Proofs.C16", "Tx3Proofs.C16Int", "Tx3Proofs.C16Ref", "Tx3Proofs.C16Exact"]
+TARGETS = ["Tx3Proofs.C16", "Tx3Proofs.C16Int", "Tx3Proofs.C16Ref", "Tx3Proofs.C16Exact", "Tx3Proofs.C16Bool"]
 THEOREMS = ["Tx3.Json.C16_hex_roundtrip", "Tx3.Json.C16_hexToBytes_plain", "Tx3.Json.C16_hexToBytes_prefixed",
             "Tx3.Json.C16_bool", "Tx3.Json.C16_fromJson_total", "Tx3.Json.C16_request_args",
             "Tx3.Json.parseNatChars_natDigits", "Tx3.Json.C16_int_decimal", "Tx3.Json.ofBE16_toBE16", "Tx3.Json.C16_int_hex16", "Tx3.Json.C16_utxo_ref_roundtrip",
-            "Tx3.Json.go_exact", "Tx3.Json.C16_request_args_exact", "Tx3.Json.C16_argument_overrides_env"]
+            "Tx3.Json.go_exact", "Tx3.Json.C16_request_args_exact", "Tx3.Json.C16_argument_overrides_env",
+    "Tx3.Json.C16_bool_only", "Tx3.Json.C16_number_not_bool"]
 RULE = (
     "cases = (a) every admissible encoding of a drawn value per type: integers (boundary i128 / u64 / i64 values) as "
     "JSON number, decimal string, 0x-hex of 16 bytes; booleans as literal, 0/1, strings; byte strings as hex, 0x-hex, "
